@@ -87,7 +87,7 @@ struct Mon {
     }
   }
 
-  void offset_case(long o) {
+  void offset_case(long o, bool far = false) {
     long e = exp_offset(o);
     std::string name = exp_name(o);
     ctx.set_case("class=offset op=fixed_time_zone offset=%ld", o);
@@ -120,7 +120,7 @@ struct Mon {
     if (after != before) {
       ctx.viol("C15", "factory-consulted", "offset=" + std::to_string(o) + " name=" + name + " factory calls=" + std::to_string(after - before));
     }
-    ctx.stat("C15.offsets");
+    ctx.stat(far ? "C15.offsets_far" : "C15.offsets");
     if (e != 0) ctx.stat("C15.distinct_nontrivial");
   }
 
@@ -222,6 +222,26 @@ int main(int argc, char** argv) {
     Mon m(ctx, thorough);
     if (c < noff) {
       for (long o = -90000 + c * kChunk; o < -90000 + (c + 1) * kChunk && o <= 90000; ++o) m.offset_case(o);
+      if (c == 0 || c == noff - 1) {
+        // far beyond 24 hours, where the count no longer fits narrower integer types: multiples of 2^31/2^32/... plus a
+        // legal offset, and the int64 limits. All of them are UTC.
+        const long sgn = c == 0 ? -1 : 1;
+        for (int sh : {31, 32, 33, 40, 48, 62})
+          for (long k : {1L, 2L, 3L})
+            for (long d : {-86401L, -86400L, -3600L, -1L, 0L, 1L, 59L, 3600L, 45296L, 86399L, 86400L, 86401L}) {
+              __int128 v = (static_cast<__int128>(k) << sh) + d;
+              if (v > INT64_MAX) continue;
+              m.offset_case(sgn * static_cast<long>(v), true);
+              ctx.stat("C15.offsets_beyond_int32");
+            }
+        for (long d : {0L, 1L, 2L, 3600L, 86400L}) m.offset_case(sgn > 0 ? INT64_MAX - d : INT64_MIN + d, true);
+        sup::Rng rr(seed, 99 + static_cast<uint64_t>(c));
+        for (int i = 0; i < 400; ++i) {
+          long v = static_cast<long>(rr.next());
+          m.offset_case(v, true);
+          ctx.stat("C15.offsets_beyond_int32");
+        }
+      }
       if (c == noff / 2 + 7) {
         cctz::time_zone tz = cctz::fixed_time_zone(cctz::seconds(-12345));
         ctx.sample("C15", "fixed_time_zone(-12345): name=" + tz.name() + " abbr=" + tz.lookup(mk(0)).abbr + " offset=" +
